@@ -127,4 +127,32 @@ var props = map[string]*Prop{
 			{Name: "json-race-freerunning", Pkg: "pkg/storage/jsondb", Test: "TestVerifC11JSONRace", Shards: sh(1, 2), Race: true, TimeoutS: sh(900, 3600)},
 		},
 	},
+	"C02": {
+		Level: "exploration",
+		Rule: "program family: 45 hand-written base functions (straight-line, branching, counted/range/nested/sibling loops, break/continue/labels, slices, strings, same-package and cross-package calls, closures, recursion, methods, defer/recover/panic, maps, switch, bits, narrow ints, floats, named map types, select, goroutines, pointers, structs, effects) x refactoring catalogue applied by AST rewriting at EVERY applicable site singly, at all sites together, in every ordered pair of whole-function refactorings and all together: R1 rename params/results/locals, R2 labels, R3 the function itself, R4 reformat/comments, R5 reorder declarations (every other round), R6 >=/>/</<= written as the opposite test with branches exchanged (int and string), R7 exchange operands of int + * & | ^ == !=, R8 string literal replaced, R9 int literal outside [-16,16] replaced (R8/R9 default policy only). Each refactored function is compiled and executed natively on 576 inputs against its original (must be identical, else harness error). Oracle: equal fingerprints under the default policy (all) and with all literals kept (R1-R7); sfw diff status preserved. Non-trivial = distinct (base, refactoring, site).",
+		Assumptions: []string{"applicability of R6/R7 is decided by the family's variable-naming convention instead of a type checker; every variant is type-checked and natively validated before it is used", "R3 on functions containing closures or recursion is part of the family because the statement lists closures and recursion"},
+		Bounds:      map[string]string{"quick": "whole catalogue (the family is small enough)", "thorough": "same"},
+		Units: []Unit{
+			{Name: "refactorings", Pkg: "internal/cli", Test: "TestVerifC02", Shards: sh(16, 16), TimeoutS: sh(1200, 3600), DeadlineS: sh(600, 3000)},
+		},
+	},
+	"C03": {
+		Level: "exploration",
+		Rule: "program family (50 base functions, see C02) x behaviour-changing edit catalogue applied by AST rewriting at EVERY applicable site: E1 operator replacement (arithmetic, bitwise, shift, comparison boundary, logical), E2 comparison negated WITHOUT exchanging branches (invalid refactoring), E3 operands of non-commutative ops and of string concatenation exchanged, E4 if/else bodies exchanged, E5 else branch dropped, E6 callee swapped (same-package and cross-package), E7 call arguments exchanged, E8 a variable use replaced by another int variable (index, loop-variable, operand swaps), E9 small integer literal changed, E10 loop step changed. Every base and every edit is compiled into one native program per shard and executed on 576 inputs (a,b in {-2,0,1,3}; 4 slices; x,y in 3 strings); observation = results | panic class, effect log, final slice. Oracle: observations differ on some input => fingerprints differ with all literals kept AND under the default policy. Non-trivial = edit whose native run differs from its base (counted; the others are reported as not observably different).",
+		Assumptions: []string{"native execution with the repository's toolchain is the ground truth for 'behaves differently'; loops and recursion carry a fuel counter in the native copy only and fuel exhaustion drops the pair", "none of the catalogue's edits is a literal-only edit of a literal the default policy abstracts, so the default-policy clause applies to every observed difference"},
+		Bounds:      map[string]string{"quick": "whole catalogue", "thorough": "same"},
+		Units: []Unit{
+			{Name: "edits-fingerprint", Pkg: "internal/cli", Test: "TestVerifC03", Shards: sh(16, 16), TimeoutS: sh(1800, 3600), DeadlineS: sh(900, 3000)},
+		},
+	},
+	"C04": {
+		Level: "exploration",
+		Rule: "the C03 (old, new) pairs, batched as one old file holding every base function and one new file per round holding one edit of every base (functions without an edit in that round are identical, separately compiled copies), are handed to the real cli.ComputeDiff; oracle: natively observed behaviour difference => status != preserved; identical copy => preserved, fingerprint match, nothing added or removed. Plus a pair beyond the 5000-block size guard differing in one returned constant. Non-trivial = edit whose native run differs.",
+		Assumptions: []string{"as C03"},
+		Bounds:      map[string]string{"quick": "whole catalogue", "thorough": "same"},
+		Units: []Unit{
+			{Name: "edits-diff-status", Pkg: "internal/cli", Test: "TestVerifC04", Shards: sh(16, 16), TimeoutS: sh(1800, 3600), DeadlineS: sh(900, 3000)},
+			{Name: "oversized", Pkg: "internal/cli", Test: "TestVerifC04Oversized", Shards: sh(2, 2), TimeoutS: sh(1800, 3600)},
+		},
+	},
 }
